@@ -13,8 +13,8 @@ native results (and, where sequences are involved, all call sequences).
 (`refused_address_connect / _send_to / _bind`: an address object `p_socket_address_to_native` rejects;
 `new_from_fd_null_iff_error`, `new_from_fd_keeps_descriptor`: the error returns of adoption; `adopted_identity`:
 family / protocol / connected of an adopted socket, incl. families the library does not know) ·
-§7 `p_socket_shutdown` reads its `pboolean`s with `== TRUE` (`shutdown_args_partial`, `…_write_only`,
-`…_noncanonical_witness`: the full "non-zero means TRUE" statement is false of the code).
+§7 `p_socket_shutdown` reads every pair of C ints as truth values (`shutdown_source_as_modelled`, `shutdown_args_full`,
+`shutdown_reads_truth_values`; the `== TRUE` reading of the code before its repair: `shutdown_args_historical_witness`).
 -/
 set_option linter.unusedSimpArgs false
 namespace PV.Socket
@@ -534,35 +534,72 @@ example : (runM (newFromFd 6) newFromFdAnswers 0).toOption.map (fun x => (x.1.1.
 
 /-! ## 7. `p_socket_shutdown`: how the two `pboolean` arguments are read
 
-Full statement — "every non-zero value means TRUE": `∀ rd wr, shutdownArgs rd wr = Spec.shutdownArgs rd wr` — is
-**false of the code**: the function compares with `== TRUE`, so `p_socket_shutdown (s, 2, FALSE)` shuts the WRITE
-direction down and `(2, 2)` shuts only WRITE down and leaves `connected` set (witness below; replay
-`coverage/sockets-shutdown-pboolean.replay`).  Proved: the statement for the canonical values 0 / 1, and for any
-non-zero write flag when the read flag is 0. -/
+Full strength: for **every** pair of C ints the direction shut down and the `connected` getter afterwards are those of the
+truth values (non-zero = TRUE).  The code normalises both arguments with `!!` before it compares them; the translator pins
+that text (`shutdown_source_as_modelled`).
 
-theorem shutdown_args_partial (rd wr : Int) (hr : rd = 0 ∨ rd = 1) (hw : wr = 0 ∨ wr = 1) :
-    shutdownArgs rd wr = Spec.shutdownArgs rd wr := by
-  rcases hr with rfl | rfl <;> rcases hw with rfl | rfl <;> decide
+History (known_findings.json, `fixed`, C10): the function used to compare the arguments with `== TRUE` as they came, so
+`p_socket_shutdown (s, 2, FALSE)` shut the WRITE direction down and `(2, 2)` shut only WRITE down and left `connected` set.
+`shutdownArgsHistorical` below is that reading; `shutdown_args_historical_witness` records where it left the specification
+(it is a statement about the old text, not about the code the other theorems are about). -/
 
-theorem shutdown_args_write_only (wr : Int) (h : wr ≠ 0) : shutdownArgs 0 wr = Spec.shutdownArgs 0 wr := by
-  have h1 : ¬ ((0 : Int) = 0 ∧ wr = 0) := fun x => h x.2
-  simp [shutdownArgs, Spec.shutdownArgs, h]
+/-- the source text of `p_socket_shutdown` is the one `shutdown` / `shutdownArgs` transliterate -/
+theorem shutdown_source_as_modelled : shutdownAsModelled = true := by decide
 
-/-- the negation of the full statement on concrete arguments: the direction shut down is not the one asked for -/
-theorem shutdown_args_noncanonical_witness :
-    shutdownArgs 2 0 = (false, true) ∧ Spec.shutdownArgs 2 0 = (true, false) ∧
-    shutdownArgs 2 2 = (false, true) ∧ Spec.shutdownArgs 2 2 = (true, true) ∧
-    shutdownArgs 1 2 = (true, false) ∧ Spec.shutdownArgs 1 2 = (true, true) := by decide
+/-- every pair of C ints is read as the caller means it -/
+theorem shutdown_args_full (rd wr : Int) : shutdownArgs rd wr = Spec.shutdownArgs rd wr := rfl
 
-/-- … and what that does to a connected socket: `(2, 2)` issues `shutdown (fd, SHUT_WR)` and `connected` stays set,
-    where the call as meant issues SHUT_RDWR and clears it -/
+/-- `p_socket_shutdown (s, rd, wr)` on an open socket, for every pair of C ints and every script:
+    both zero → TRUE at once, no native call, object untouched; otherwise exactly one `shutdown (fd, how)` with
+    `how` = SHUT_RDWR / SHUT_RD / SHUT_WR according to the **truth values** of `rd`, `wr`; when it succeeds the object is
+    unchanged except that `connected` is cleared iff both are non-zero; when it fails the object is unchanged and an error is set -/
+theorem shutdown_reads_truth_values (s : Sock) (hc : s.closed = false) (rd wr : Int) (script : Script) (e : Int) (r : CallResult)
+    (h : call s (.shutdown (shutdownArgs rd wr).1 (shutdownArgs rd wr).2) script e = .ok r) :
+    (rd = 0 ∧ wr = 0 → r.tr = [] ∧ r.out = { ret := 1 } ∧ r.sock = s) ∧
+    (¬ (rd = 0 ∧ wr = 0) →
+      r.tr.map (·.call) = [.shutdown s.fd (if rd ≠ 0 ∧ wr ≠ 0 then SHUT_RDWR else if rd ≠ 0 then SHUT_RD else SHUT_WR)] ∧
+      (r.out.ret = 1 → r.sock = (if rd ≠ 0 ∧ wr ≠ 0 then { s with connected := false } else s) ∧ r.out.err = none) ∧
+      (r.out.ret ≠ 1 → r.sock = s ∧ r.out.err.isSome)) := by
+  by_cases h0 : rd = 0 <;> by_cases h1 : wr = 0
+  all_goals simp only [shutdownArgs, h0, h1, ne_eq, not_true_eq_false, not_false_eq_true, decide_true, decide_false] at h
+  · simp [call, callM, shutdown, check, hc, M.bind, M.pure, pure] at h
+    subst h; simp [h0, h1, hc]
+  all_goals
+    cases script with
+    | nil => simp [call, callM, shutdown, check, hc, sys, M.bind] at h
+    | cons a t =>
+      by_cases hs : a.sys = Sys.shutdown
+      · by_cases hr : a.ret = .ok 0
+        · simp [call, callM, shutdown, check, hc, sys, M.bind, hs, Issued.sys, hr, M.pure, pure] at h
+          subst h; simp [h0, h1, hc]
+        · simp [call, callM, shutdown, check, hc, sys, M.bind, hs, Issued.sys, hr, M.pure, pure, errnoErr, failOut] at h
+          subst h; simp [h0, h1, hc]
+      · simp [call, callM, shutdown, check, hc, sys, M.bind, hs, Issued.sys] at h
+
+/-- non-vacuity: (2, 2) on a connected socket issues SHUT_RDWR and clears `connected`; (2, 0) issues SHUT_RD; (−1, 0) too;
+    (0, 256) issues SHUT_WR; (0, 0) issues nothing -/
 example :
-    ((call demoSockC10 (.shutdown (shutdownArgs 2 2).1 (shutdownArgs 2 2).2) [{ sys := .shutdown, ret := .ok 0 }]).toOption.map
-      (fun r => (r.tr.map (·.call), r.sock.connected)),
-     (call demoSockC10 (.shutdown (Spec.shutdownArgs 2 2).1 (Spec.shutdownArgs 2 2).2) [{ sys := .shutdown, ret := .ok 0 }]).toOption.map
-      (fun r => (r.tr.map (·.call), r.sock.connected))) =
-    (some ([.shutdown 5 SHUT_WR], true), some ([.shutdown 5 SHUT_RDWR], false)) := by decide
+    ([(2, 2), (2, 0), (-1, 0), (0, 256), (0, 0)].map fun (p : Int × Int) =>
+      (call demoSockC10 (.shutdown (shutdownArgs p.1 p.2).1 (shutdownArgs p.1 p.2).2) [{ sys := .shutdown, ret := .ok 0 }]).toOption.map
+        (fun r => (r.tr.map (·.call), r.sock.connected))) =
+    [some ([.shutdown 5 SHUT_RDWR], false), some ([.shutdown 5 SHUT_RD], true), some ([.shutdown 5 SHUT_RD], true),
+     some ([.shutdown 5 SHUT_WR], true), some ([], true)] := by decide
 
-example : shutdownArgs 1 0 = (true, false) ∧ shutdownArgs 0 (-7) = (false, true) ∧ shutdownArgs 0 0 = (false, false) := by decide
+/-- the reading of the flags before the repair (`== FALSE` for the early return, `== TRUE` for the direction) -/
+def shutdownArgsHistorical (rd wr : Int) : Bool × Bool :=
+  if rd = 0 ∧ wr = 0 then (false, false)
+  else if rd = 1 ∧ wr = 1 then (true, true)
+  else if rd = 1 then (true, false)
+  else (false, true)
+
+/-- where the historical reading left the specification (it agreed with it on the values 0 / 1 only) -/
+theorem shutdown_args_historical_witness :
+    shutdownArgsHistorical 2 0 = (false, true) ∧ Spec.shutdownArgs 2 0 = (true, false) ∧
+    shutdownArgsHistorical 2 2 = (false, true) ∧ Spec.shutdownArgs 2 2 = (true, true) ∧
+    shutdownArgsHistorical 1 2 = (true, false) ∧ Spec.shutdownArgs 1 2 = (true, true) ∧
+    (∀ rd wr : Int, (rd = 0 ∨ rd = 1) → (wr = 0 ∨ wr = 1) → shutdownArgsHistorical rd wr = Spec.shutdownArgs rd wr) := by
+  refine ⟨by decide, by decide, by decide, by decide, by decide, by decide, ?_⟩
+  intro rd wr hr hw
+  rcases hr with rfl | rfl <;> rcases hw with rfl | rfl <;> decide
 
 end PV.Socket
